@@ -30,6 +30,7 @@ type Prog struct {
 	TPkgs  map[string]*types.Package
 	addrTaken map[*ssa.Function]bool
 	lockInfo  *LockInfo
+	inCallSiteBound int
 }
 
 // required anchor packages (relative to the module root)
